@@ -7,7 +7,7 @@ import build, irparse, symex, e1
 args = sys.argv[1:]
 h, entry = args[0], args[1]
 defs = [a[2:] for a in args[2:] if a.startswith('-D')]
-opts = {'verbose': 0}
+opts = {'verbose': 0, 'time_limit': float(os.environ.get('E1_TL', '120'))}
 for a in args[2:]:
     if a.startswith('--opt'):
         k, v = a.split('=', 1)[0][6:], a.split('=', 1)[1]
